@@ -45,12 +45,16 @@ HARMLESS = {'Path', 'PermissionError', 'IsADirectoryError', 'ValueError', '_gene
             'debug', 'info', 'warning', 'endswith', 'exists', 'is_dir', 'is_file', 'is_symlink', 'stat', 'file_pp', 'line_pp',
             'filter_type_to_template', 'format', 'generate', 'get_support_module', 'get_support_output_folder',
             'get_target_language', 'get_template', 'get_templates', 'isinstance', 'len', 'provider', 'reset', 'str', 'type',
-            'update_nunavut_globals', 'utcnow', 'with_suffix', 'write'}
+            'update_nunavut_globals', 'utcnow', 'with_suffix', 'write',
+            # module-level helpers of jinja/__init__.py, reviewed (and scanned themselves, see SCANNED): they only touch Python
+            # objects (the Jinja template cache, the line post-processors' counters), never the output tree
+            '_forget_imported_template_modules', 'getattr', 'setattr', 'list', 'values', 'callable'}
 SCANNED = [(SRC_J, 'CodeGenerator', '_handle_overwrite'), (SRC_J, 'CodeGenerator', '_generate_code'),
            (SRC_J, 'SupportGenerator', '_copy_header'), (SRC_J, 'SupportGenerator', '_copy_header_using_line_pps'),
            (SRC_J, 'SupportGenerator', '_generate_header'), (SRC_J, 'DSDLCodeGenerator', '_generate_type'),
            (SRC_J, 'SupportGenerator', 'generate_all'), (SRC_J, 'DSDLCodeGenerator', 'generate_all'),
-           (SRC_P, 'SetFileMode', '__call__')]
+           (SRC_P, 'SetFileMode', '__call__'),
+           (SRC_J, None, '_forget_imported_template_modules'), (SRC_J, None, '_reset_line_pp')]
 
 
 def check_all_calls_classified(trees: dict) -> None:
